@@ -207,7 +207,7 @@ def known_findings():
     if os.path.exists(path):
         for l in open(path):
             l = l.strip()
-            if l and not l.startswith("#"):
+            if l and not l.startswith("#") and not l.startswith("fixed:"):
                 out.append(json.loads(l))
     return out
 
